@@ -515,6 +515,20 @@ R.contract(
     },
 )
 
+
+# ------------------------------------------------------------------------------------------------- not_a_server_error: 5xx is always a failure, nothing below is (for non-GraphQL operations)
+CKM = "schemathesis.checks:"
+R.exception_classes["ServerError"] = "schemathesis.core.failures:ServerError"
+R.contract(
+    CKM + "not_a_server_error",
+    prop="C04",
+    args={"ctx": Opq("CheckContext"), "response": Obj("schemathesis.core.transport:Response", status_code=IntRange(100, 999)),
+          "case": Obj("schemathesis.generation.case:Case", operation=Obj("schemathesis.schemas:APIOperation", label=Str, schema=Opq("OASchema")))},
+    raises=["ServerError"],
+    ensures={"passes_exactly_below_500": "response.status_code < 500 and result is None"},
+    raises_ensures={"a_server_error_is_reported_exactly_from_500_up": "raised == 'ServerError' and response.status_code >= 500"},
+)
+
 LEVEL_TEXT = ("Deductive: status-code verdict (both directions), content-type verdict with wildcards, definition selection and failure plumbing are "
               "postconditions from the property on the real functions, discharged by z3; maps/lists with symbolic keys are explored up to 2 entries (labelled bounded), "
               "expand_status_code by complete enumeration of its finite domain.")
